@@ -27,6 +27,10 @@ def run(tier, seed):
                 new = gen.rotate(new, rng.randrange(len(new)))
                 if rng.random() < 0.3:        # written the way many labs do: backbone and sites in lower case, insert in upper case
                     new = "".join(ch.lower() if rng.random() < 0.5 else ch for ch in new)
+                if rng.random() < 0.25:       # a backbone that was never domesticated: one more (reverse) site of the enzyme behind the structure
+                    alt = G.module(c["overhangs"][pos], gen.rnd(rng.randint(2, 9), rng), c["overhangs"][pos + 1], gen.rnd(rng.randint(1, 4), rng), rng)
+                    if alt:
+                        new = gen.rotate(alt + G.rcsite + gen.rnd(rng.randint(2, 6), rng, G.safe), rng.randrange(len(alt)))
                 if rng.random() < 0.3:        # the very same plasmid, loaded with another origin
                     new = gen.rotate(c["modules"][pos], rng.randrange(1, len(c["modules"][pos])))
                 r = {"fn": "assemble", "enz": espec, "vector": {"id": "vec", "seq": gen.rotate(c["vector"], rng.randrange(len(c["vector"])))},
